@@ -159,6 +159,77 @@ func commitCalls(fset *token.FileSet, fd *ast.FuncDecl) []string {
 	return out
 }
 
+// startLoopOps: the consumer goroutine of CommandQueue.Start, in source order: the loop, every
+// select with its number of communication clauses and whether it has a default, every
+// communication clause, every send that is a statement of its own ("stmt …": a plain
+// BLOCKING send), the queue lock / unlock and the call of commit.
+func startLoopOps(fset *token.FileSet, fd *ast.FuncDecl) []string {
+	var out []string
+	if fd == nil {
+		return out
+	}
+	var lit *ast.FuncLit
+	ast.Inspect(fd.Body, func(n ast.Node) bool {
+		if g, ok := n.(*ast.GoStmt); ok && lit == nil {
+			if fl, ok := g.Call.Fun.(*ast.FuncLit); ok {
+				lit = fl
+			}
+		}
+		return true
+	})
+	if lit == nil {
+		return out
+	}
+	inComm := map[ast.Node]bool{}
+	ast.Inspect(lit.Body, func(n ast.Node) bool {
+		switch x := n.(type) {
+		case *ast.ForStmt:
+			if x.Cond == nil && x.Init == nil && x.Post == nil {
+				out = append(out, "for")
+			} else {
+				out = append(out, "for "+src(fset, x.Cond))
+			}
+		case *ast.GoStmt:
+			out = append(out, "go")
+		case *ast.SelectStmt:
+			cases, def := 0, false
+			for _, c := range x.Body.List {
+				if cc, ok := c.(*ast.CommClause); ok {
+					if cc.Comm == nil {
+						def = true
+					} else {
+						cases++
+						inComm[cc.Comm] = true
+					}
+				}
+			}
+			out = append(out, fmt.Sprintf("select cases=%d default=%v", cases, def))
+		case *ast.CommClause:
+			if x.Comm != nil {
+				out = append(out, "case "+src(fset, x.Comm))
+			} else {
+				out = append(out, "default")
+			}
+		case *ast.SendStmt:
+			if !inComm[x] {
+				out = append(out, "stmt "+src(fset, x))
+			}
+		case *ast.ExprStmt:
+			if s := src(fset, x.X); s == "m.Lock()" || s == "m.Unlock()" {
+				out = append(out, s)
+			}
+		case *ast.DeferStmt:
+			out = append(out, "defer "+src(fset, x.Call))
+		case *ast.AssignStmt:
+			if s := src(fset, x); strings.Contains(s, ".commit(") {
+				out = append(out, s)
+			}
+		}
+		return true
+	})
+	return out
+}
+
 // singleTargetTable evaluates the LINKED MakeSingleTarget (through the wrappers
 // the core enqueues: Transition, TriggerHook, and the base itself) on a few
 // commands and tabulates what the per-target command carries. Row:
@@ -304,7 +375,7 @@ func singleTargetTable() string {
 
 func genFacts(repo string) (string, error) {
 	fset := token.NewFileSet()
-	var fields, runOps, prOps, selectCases, consol, flow, commitOps []string
+	var fields, runOps, prOps, selectCases, consol, flow, commitOps, startOps []string
 	runLit, prLit := "", ""
 	if f, err := parser.ParseFile(fset, repo+"/core/controlcommands/mesoscommandservent.go", nil, 0); err == nil {
 		ast.Inspect(f, func(n ast.Node) bool {
@@ -337,6 +408,7 @@ func genFacts(repo string) (string, error) {
 	}
 	if f, err := parser.ParseFile(fset, repo+"/core/controlcommands/commandqueue.go", nil, 0); err == nil {
 		commitOps = commitCalls(fset, funcDecl(f, "CommandQueue", "commit"))
+		startOps = startLoopOps(fset, funcDecl(f, "CommandQueue", "Start"))
 	}
 	if f, err := parser.ParseFile(fset, repo+"/core/controlcommands/multiresponse.go", nil, 0); err == nil {
 		if fd := funcDecl(f, "", "consolidateResponses"); fd != nil {
@@ -372,6 +444,8 @@ func genFacts(repo string) (string, error) {
 	fmt.Fprintf(&b, "def runCommandFlow : List String := %s\n\n", leanList(flow))
 	b.WriteString("/-- commit: how the per-target command is made and what RunCommand is handed -/\n")
 	fmt.Fprintf(&b, "def commitCalls : List String := %s\n\n", leanList(commitOps))
+	b.WriteString("/-- the consumer goroutine of CommandQueue.Start: loop, selects (clauses, default?), communication clauses, plain send statements, queue lock/unlock, commit — in source order -/\n")
+	fmt.Fprintf(&b, "def startLoop : List String := %s\n\n", leanList(startOps))
 	b.WriteString("/-- the LINKED MakeSingleTarget evaluated on a few commands: (kind, id, targets, tmo ms, args, receiver,\n    none | some (id or 0, targets, tmo ms, receiver's argument token (0 empty map, 999 nil/other), everything else preserved)) -/\n")
 	b.WriteString(singleTargetTable())
 	b.WriteString("\nend Gen.C12\n")
